@@ -79,6 +79,11 @@ class _BatchSpy:
                                          np.array_equal(ab_, rec.full_affinity[np.ix_(ids, ids)]))
             if rec.decorated:
                 ev["rec"] = [int(v) for v in getattr(self._inner, "indices", [])]
+                # with duplicated rows the matching above is ambiguous: if the recorded indices do select exactly the rows of
+                # this batch, they are a valid identification of the samples (and are then what the partition is judged on)
+                if pool is not None and len(ev["rec"]) == len(ids) and all(0 <= r < len(X) for r in ev["rec"]) \
+                        and np.array_equal(np.asarray(X)[ev["rec"]], np.asarray(xb)):
+                    ev["idx"] = list(ev["rec"])
             rec.events.append(ev)
             rec.last_batch = (xb, ab)
             yield xb, ab
